@@ -6,7 +6,12 @@
 // executable so that counterexamples can be replayed against the real code.
 package commit
 
-import "unsafe"
+import (
+	"io"
+	"unsafe"
+
+	"github.com/kelindar/iostream"
+)
 
 // vAssumeFailed is raised at run time when a replayed input does not satisfy an assumption.
 type vAssumeFailed struct{}
@@ -78,3 +83,100 @@ func VAtEnd(r *Reader) bool { return r.last == len(r.buffer) }
 
 // VSeparate reports that two byte slices do not share a backing array (exported form of vSeparate).
 func VSeparate(a, b []byte) bool { return vSeparate(a, b) }
+
+// ---------------------------------------------------------------------------------------------
+// iostream.Reader as an abstract token stream with sticky failure (DESIGN section 5): every read either yields a
+// token value or fails; once a read has failed every later read fails too (that is what a truncated stream does).
+// vReadFailed is ghost: whether any read has failed so far; vReadErr is the error a failing read returns.
+
+var (
+	vReadFailed bool
+	vReadErr    error
+	vReads      int
+)
+
+func vReadStep() bool {
+	vReads++
+	if !vReadFailed && vNondet[bool]() {
+		vReadFailed = true
+	}
+	return !vReadFailed
+}
+
+//@ model iostream.NewReader global
+func vModelNewReader(src io.Reader) *iostream.Reader { return new(iostream.Reader) }
+
+//@ model iostream.(*Reader).Offset global
+func vModelReaderOffset(r *iostream.Reader) int64 { return vNondet[int64]() }
+
+//@ model iostream.(*Reader).ReadUvarint global
+func vModelReadUvarint(r *iostream.Reader) (uint64, error) {
+	if !vReadStep() {
+		return 0, vReadErr
+	}
+	return vNondet[uint64](), nil
+}
+
+//@ model iostream.(*Reader).ReadUint32 global
+func vModelReadUint32(r *iostream.Reader) (uint32, error) {
+	if !vReadStep() {
+		return 0, vReadErr
+	}
+	return vNondet[uint32](), nil
+}
+
+//@ model iostream.(*Reader).ReadInt32 global
+func vModelReadInt32(r *iostream.Reader) (int32, error) {
+	if !vReadStep() {
+		return 0, vReadErr
+	}
+	return vNondet[int32](), nil
+}
+
+//@ model iostream.(*Reader).ReadString global
+func vModelReadString(r *iostream.Reader) (string, error) {
+	if !vReadStep() {
+		return "", vReadErr
+	}
+	return vNondet[string](), nil
+}
+
+//@ model iostream.(*Reader).ReadBytes global
+func vModelReadBytes(r *iostream.Reader) ([]byte, error) {
+	if !vReadStep() {
+		return nil, vReadErr
+	}
+	return vNondet[[]byte](), nil
+}
+
+// ReadRange reads a count and calls fn for each element until one fails (one arbitrary element per check).
+//
+//@ model iostream.(*Reader).ReadRange global
+func vModelReadRange(r *iostream.Reader, fn func(i int, r *iostream.Reader) error) error {
+	if !vReadStep() {
+		return vReadErr
+	}
+	if vNondet[bool]() {
+		if err := fn(vNondet[int](), r); err != nil {
+			return err
+		}
+	}
+	return nil
+}
+
+// Exported views of the stream ghost state for contracts of other packages.
+func VReadFailed() bool      { return vReadFailed }
+func VResetStream(err error) { vReadFailed, vReadErr = false, err }
+func VReadErr() error        { return vReadErr }
+
+//@ model io.ReadFull global
+func vModelReadFull(r io.Reader, buf []byte) (int, error) {
+	if !vReadStep() {
+		return 0, vReadErr
+	}
+	vHavocRange(buf)
+	return len(buf), nil
+}
+
+// vHavocRange: the elements of the slice take unknown values (verifier intrinsic).
+func vHavocRange(s any) {}
